@@ -190,11 +190,11 @@ type Evidence struct {
 
 // ReplayFile is the artefact written for every reported violation.
 type ReplayFile struct {
-	Property string     `json:"property"`
-	Kind     string     `json:"kind"`
-	Clause   string     `json:"clause"`
-	Msg      string     `json:"msg"`
-	Path     []string   `json:"path"`
+	Property string            `json:"property"`
+	Kind     string            `json:"kind"`
+	Clause   string            `json:"clause"`
+	Msg      string            `json:"msg"`
+	Path     []string          `json:"path"`
 	Tags     map[string]string `json:"tags,omitempty"`
 }
 
